@@ -282,7 +282,7 @@ def inv_tokens(inv: list) -> List[str]:
     return toks
 
 
-def schema_predicts_live(ctx: Ctx, scenarios: Dict[str, Any], registry: Dict[str, Any]):
+def schema_predicts_live(ctx: Ctx, scenarios: Dict[str, Any], registry: Dict[str, Any], model_ok: bool = True):
     S = x_schema.as_python()
     T = x_templ.build()
     by_action: Dict[str, List[dict]] = {}
@@ -306,11 +306,14 @@ def schema_predicts_live(ctx: Ctx, scenarios: Dict[str, Any], registry: Dict[str
             ctx.notes.append(f"R-schema: scenario {name} not buildable: {type(e).__name__}")
             continue
         sim = game.simulation
+        history: List[list] = []
+        clock = [0]
         for rnd in range(ctx.scale(2, 4)):
             vocab = rreq._vocab(sim)
             if rnd:
-                rreq.perturb(rng, sim, registry, vocab, steps=ctx.scale(12, 30))
+                history += perturb_rec(rng, sim, registry, vocab, ctx.scale(12, 30), clock)
                 vocab = rreq._vocab(sim)
+            setup = list(history)
             n_states += 1
             where = f"{name}#{rnd}"
             tc = TreeCheck(ctx, S, name, rnd)
@@ -324,8 +327,9 @@ def schema_predicts_live(ctx: Ctx, scenarios: Dict[str, Any], registry: Dict[str
             lines.append("inv " + " ".join(inv_tokens(inv)))
             pending.append({"kind": "inv"})
             # templates: options naming live components (and a few missing ones)
-            for _ in range(ctx.scale(250, 1200)):
-                ident, opts, exists = rreq.gen_action(rng, sim, vocab, registry, ghost_p=(1, 8))
+            # every registered action type, several option sets each, in every state
+            for ident0 in [i for i in sorted(registry) for _ in range(ctx.scale(5, 24))]:
+                ident, opts, exists = rreq.gen_action(rng, sim, vocab, {ident0: registry[ident0]}, ghost_p=(1, 8))
                 try:
                     cfg = registry[ident].ConfigSchema(type=ident, **opts)
                     real = registry[ident].form_request(cfg)
@@ -353,7 +357,15 @@ def schema_predicts_live(ctx: Ctx, scenarios: Dict[str, Any], registry: Dict[str
                 lines.append(f"route {t['index']} {node_cls} " + " ".join(f"{f}={enc_key(getattr(cfg, f))}" for f in fields))
                 # observed on the live tree: does the key-walk reach a leaf, and which validators sit on the way
                 reach, vals = live_walk(sim._request_manager, real)
+                pyp = addressable and py_present(S, t, cfg, inv, node_cls)
+                ctx.case({"w": where, "a": ident, "o": opts}, True)
+                if pyp and exists and not reach:   # `exists`: the generator, too, chose only existing components
+                    # implementation-side oracle (independent of Lean): present components, yet the request runs off the tree
+                    ctx.violation({"kind": "action-on-present-components-unreachable", "action": ident},
+                                  f"{ident} {opts}: components present in the object graph, request {real} does not reach a handler",
+                                  {"scenario": name, "setup_ops": setup, "action": ident, "opts": opts, "req": real})
                 pending.append({"kind": "route", "where": where, "ident": ident, "opts": opts, "real": real, "reach": reach, "vals": vals,
+                                "pyp": pyp,
                                 "exists": exists, "tindex": t["index"], "addressable": addressable, "node_cls": node_cls})
     ctx.oblige("rig:R-schema live key sets / kinds / targets / validators equal the regenerated schema's", "correspondence",
                not bad_tree, "; ".join(bad_tree[:8]))
@@ -363,6 +375,10 @@ def schema_predicts_live(ctx: Ctx, scenarios: Dict[str, Any], registry: Dict[str
                not bad_templ, "; ".join(bad_templ[:8]))
     for b in (bad_tree + bad_inv + bad_templ)[:3]:
         ctx.notes.append("R-schema: " + b)
+    ctx.count("schema:states", n_states)
+    if not model_ok:
+        ctx.notes.append("R-schema: Lean side skipped (module/driver did not build); tree, inventory, template and oracle checks ran")
+        return
     # ---- model side (one driver call)
     out = run_driver(EXE, lines)
     if len(out) != len(pending):
@@ -378,8 +394,9 @@ def schema_predicts_live(ctx: Ctx, scenarios: Dict[str, Any], registry: Dict[str
             raise RuntimeError(f"driver rejected a route line for {rec['ident']}: {line}")
         f = dict(x.split("=", 1) for x in line.split(" | "))
         present = f["present"] == "1"
-        ctx.case({"w": rec["where"], "a": rec["ident"], "o": rec["opts"]}, True)
         ctx.cov["traces_validated_against_impl"] += 1
+        if rec["addressable"] and present != rec["pyp"]:
+            bad_model.append(f"{rec['where']}: {rec['ident']} {rec['opts']}: Lean present={present} vs object-graph oracle {rec['pyp']}")
         path_model = f["path"].split(" ") if f["path"] else []
         # (i) instantiate = the keys of the real request (payload elements are opaque to the model: compared up to the first one)
         real_keys = [enc_key(k) for k in rec["real"]]
@@ -396,11 +413,9 @@ def schema_predicts_live(ctx: Ctx, scenarios: Dict[str, Any], registry: Dict[str
         if present:
             n_present += 1
             ctx.count("model:present")
-            if not rec["reach"]:
-                # the proved theorem says: instance + resolves + present => path exists.  A live counterexample is a violation.
-                ctx.violation({"kind": "action-on-present-components-unreachable", "action": rec["ident"]},
-                              f"{rec['ident']} {rec['opts']}: components present in the object graph, request {rec['real']} does not reach a handler",
-                              {"scenario": rec["where"], "action": rec["ident"], "opts": rec["opts"], "req": rec["real"]})
+            if not rec["reach"] and not rec["pyp"]:
+                # (if pyp, the violation was already reported by the oracle above)
+                bad_model.append(f"{rec['where']}: {rec['ident']} {rec['opts']}: model says present, live request does not reach a handler")
             lv = [v for v in f["vals"].split(";")] if f["vals"] else []
             live_vals = [(",".join(":".join(a) for a in va) or "-") for va in rec["vals"]]
             if rec["reach"] and lv != live_vals:
@@ -413,11 +428,99 @@ def schema_predicts_live(ctx: Ctx, scenarios: Dict[str, Any], registry: Dict[str
         nkeys = min(nkeys, len(rec["vals"]))   # elements after the handler are its options: opaque to the model
         if path_model[:nkeys] != real_keys[:nkeys] and present:
             bad_model.append(f"{rec['where']}: {rec['ident']}: instantiate {path_model} vs real {real_keys}")
-    ctx.count("schema:states", n_states)
     ctx.oblige("rig:R-schema Lean present/instantiate/routeVals agree with the live tree on every generated action", "correspondence",
                not bad_model, "; ".join(bad_model[:8]))
     ctx.notes.append(f"R-schema: {n_states} live states, {n_present} generated actions naming present components (all reached a handler "
                      f"unless reported), {n_absent} naming an absent one")
+
+
+def py_present(S: dict, t: dict, cfg, inv: list, node_cls: str) -> bool:
+    """Python mirror of `present` (Model/Schema.lean) on the object-graph inventory: every dynamic-level element of the
+    template names a component of the inventory whose class the element admits; a choice names one of the schema's keys.
+    This is the oracle's notion of "parameters name existing components"; the Lean `present` is compared with it."""
+    m, level_inv = "Simulation", inv
+    for s in t["segs"]:
+        M = S["mgrs"].get(m)
+        if M is None:
+            return True
+        if s[0] == "lit":
+            key, kty = s[1], "str"
+        elif s[0] == "slot":
+            v = getattr(cfg, s[1])
+            key = str(v) if s[5] else v
+            kty = s[3]
+        elif s[0] == "choice":
+            v = getattr(cfg, s[1])
+            key = str(v) if s[4] else v
+            kty = s[2]
+        else:
+            key, kty = None, "other"
+        if M["kind"] == "static":
+            if s[0] == "choice" and key not in S["choices"].get(s[1], []):
+                return False
+            e = M["edges"].get(key) if _hashable(key) else None
+            if e is None or e["target"][0] == "leaf":
+                return True
+            m = e["target"][1]
+        else:
+            hit = next(((c, ch) for (lv, k, c, ch) in level_inv if lv == M["level"] and type(k) is type(key) and k == key), None)
+            if hit is None:
+                return False
+            c, ch = hit
+            if s[0] == "lit":
+                admitted = [x for x in S["level_classes"][M["level"]] if S["names"].get(x) == key] if M["keyty"] == "str" else []
+            elif s[0] == "slot" and x_schema.SLOT_LEVEL[s[2]] == M["level"] and kty == M["keyty"]:
+                admitted = S["slot_classes"][s[2]]
+                if x_schema.SLOT_LEVEL[s[2]] == "node":
+                    admitted = [x for x in admitted if x == node_cls]
+            else:
+                admitted = []
+            if c not in admitted:
+                return False
+            m, level_inv = c, ch
+    return True
+
+
+def perturb_rec(rng, sim, registry, vocab, steps: int, clock: List[int]) -> List[list]:
+    """like rigs/request.py:perturb, but returns the exact operation list (requests and ticks) for replay files"""
+    ops: List[list] = []
+    dirty = ["node-shutdown", "node-startup", "node-reset", "node-service-stop", "node-service-disable", "node-service-pause",
+             "node-service-restart", "node-application-close", "node-application-remove", "node-file-delete", "node-folder-scan",
+             "host-nic-disable", "network-port-disable", "node-file-corrupt", "node-service-start", "node-application-install",
+             "node-file-create", "node-folder-create", "node-application-execute"]
+    sub = {k: registry[k] for k in dirty if k in registry}
+    for _ in range(steps):
+        ident, opts, _ = rreq.gen_action(rng, sim, vocab, sub, ghost_p=(0, 1))
+        if ident == "node-application-install":
+            opts["application_name"] = rng.choice(["c2-server", "c2-beacon", "dos-bot", "ransomware-script", "nmap", "web-browser"])
+        if ident in ("node-file-create", "node-folder-create"):
+            opts["folder_name"] = rng.choice(["verif_dir", "root", opts.get("folder_name", "root")])
+            if "file_name" in opts:
+                opts["file_name"] = rng.choice(["verif.txt", "b.pdf"])
+        try:
+            req = registry[ident].form_request(registry[ident].ConfigSchema(type=ident, **opts))
+            sim.apply_request(list(req))
+            ops.append(["req", req])
+        except Exception:
+            pass
+        for _ in range(rng.below(3)):
+            clock[0] += 1
+            sim.pre_timestep(clock[0])
+            sim.apply_timestep(clock[0])
+            ops.append(["tick", clock[0]])
+    return ops
+
+
+def apply_ops(sim, ops: List[list]):
+    for op in ops:
+        if op[0] == "req":
+            try:
+                sim.apply_request(list(op[1]))
+            except Exception:
+                pass
+        else:
+            sim.pre_timestep(op[1])
+            sim.apply_timestep(op[1])
 
 
 def live_walk(rm, req: List[Any]) -> Tuple[bool, List[List[tuple]]]:
